@@ -32,20 +32,29 @@ Allowed(e, pre, o, obs) ==
                               k \in {k \in 0..NS : TimeoutGuard(pre, k, LostBy(o))}}
     [] e.op = "discard" -> {DiscardF(pre, e.k)}
 
+(* The first four clauses are the statement of C08 evaluated on what the code
+   did (ledger, never negative, at most once, two-datagram floor).  The clauses
+   named "model:..." compare the code with the rest of the specification --
+   exact Reno arithmetic, the loss choice, timer flags, counters -- which the
+   statement does not prescribe; the driver reports them as SPEC-DRIFT.  They
+   come last because the first failing clause is the one reported. *)
 Clauses(e) ==
-  LET pre == Abs(e.pre)  post == Abs(e.post)  o == OutOf(e.out) IN
-  IF ~StateOk(pre) THEN << <<"pre-state-accounting", FALSE>> >> ELSE
-  IF ~Guard(e, pre, o) THEN << <<"loss-choice-or-guard", FALSE>> >> ELSE
-  LET A == Allowed(e, pre, o, post.cwnd) IN
+  LET pre == Abs(e.pre)  post == Abs(e.post)  o == OutOf(e.out)
+      ok == StateOk(pre) /\ Guard(e, pre, o)
+      A == Allowed(e, pre, o, post.cwnd) IN
   << <<"at-most-once", (o.acked \cup o.lost) \cap pre.reported = {}
                          /\ o.acked \cap o.lost = {}
-                         /\ e.out.ncallbacks = Cardinality(o.acked) + Cardinality(o.lost)>>,
-     <<"output", \E x \in A : x.out = o>>,
-     <<"post-state", \E x \in A : x.st = post>>,
-     <<"ledger", Ledger(post) /\ NonNegative(post)>>,
-     <<"ack-eliciting-count", AckElCount(post)>>,
+                         /\ (e.out.ncallbacks = -1 \/
+                             e.out.ncallbacks = Cardinality(o.acked) + Cardinality(o.lost))>>,
+     <<"untold", Untold(post)>>,
+     <<"ledger", Ledger(post) /\ post.bif >= 0>>,
      <<"cwnd-floor", CwndFloor(post)>>,
-     <<"untold", Untold(post)>> >>
+     <<"model:raised", e.out.ncallbacks # -1>>,
+     <<"model:pre-state", StateOk(pre)>>,
+     <<"model:loss-choice-or-guard", StateOk(pre) => Guard(e, pre, o)>>,
+     <<"model:output", ok => \E x \in A : x.out = o>>,
+     <<"model:post-state", ok => \E x \in A : x.st = post>>,
+     <<"model:ack-eliciting-count", AckElCount(post) /\ NonNegative(post)>> >>
 
 TInit == l = 1 /\ Init
 TNext == Judge(Clauses) /\ UNCHANGED <<vars, now, nextPn>>
